@@ -24,7 +24,7 @@ ASSUMPTIONS = ['vlib/spec/layouts.py is a hand-written specification (trusted)',
                'the emptied 10x whitelist is replaced by a generated one in a scratch barcode directory']
 MIN_NONTRIVIAL = {'quick': 3000, 'thorough': 150000}
 REQUIRED_MONITORS = ['hook:target.write', 'hook:reject.write', 'check:tags', 'check:emitted', 'check:serialised', 'cli:runs', 'cli:pairs_checked',
-                     'input:filelist', 'input:chunked_lanes', 'input:last_line_without_newline', 'input:fastq_form:crlf', 'input:fastq_form:plusname']
+                     'input:filelist', 'input:chunked_lanes', 'input:last_line_without_newline', 'input:fastq_form:crlf', 'input:fastq_form:plusname', 'input:tchic_transcriptome_pairs_with_short_read_2']
 SHARD_TIMEOUT = {'quick': 600, 'thorough': 3600}
 
 
@@ -262,6 +262,18 @@ def run_case(case):
             pairs.append(fq.make_pair(r, lay, wl.get(lay['alias'], []), kind, i + 1, case_id, hdr_kind=hdr, index_seq=index_seq,
                                       qmax=51, p_n=0.02, single_end=single, needs=lay.get('needs')))
             pairs[-1]['lay'] = lay
+            if name == 'TCHIC' and kind == 'good' and not single and pairs[-1].get('planted') and i % 3 == 0:
+                # a transcriptome read pair in the mixed library: read 1 carries, behind the scCHIC barcode, the transcript UMI, the CEL-Seq2 barcode
+                # of the same cell and the poly-T; read 2 is the (possibly very short, possibly empty) transcript end running into the poly-A tail
+                idx_of = dict(wl.get(lay['alias'], []))
+                cs2 = {ix: bc for bc, ix in wl.get('celseq2', [])}
+                cell_ix = idx_of.get(pairs[-1]['planted'])
+                if cell_ix in cs2:
+                    (h1, s1, p1, q1), (h2, s2, p2, q2) = pairs[-1]['reads']
+                    s1 = s1[:12] + fq.rand_seq(r, r.randint(0, 4)) + fq.rand_seq(r, 6) + cs2[cell_ix] + 'T' * r.randint(6, 12) + fq.rand_seq(r, r.randint(0, 20))
+                    s2 = r.choice(['', 'T', 'TC', 'CT', 'TCG', fq.rand_seq(r, r.randint(3, 30))]) + r.choice(['', 'GA', 'GAGAGG', 'AGGA']) + 'A' * r.randint(10, 25) + fq.rand_seq(r, r.randint(0, 8))
+                    pairs[-1]['reads'] = [(h1, s1, p1, fq.rand_qual(r, len(s1), 41)), (h2, s2, p2, fq.rand_qual(r, len(s2), 41))]
+                    acc.count('input:tchic_transcriptome_pairs_with_short_read_2')
         files = [os.path.join(d, 'in_R1.fastq.gz')] + ([] if single else [os.path.join(d, 'in_R2.fastq.gz')])
         unterminated = r.random() < 0.3
         acc.count('input:last_line_without_newline', 1 if unterminated else 0)
